@@ -290,7 +290,7 @@ int32 Hopen(const char *path, int acc_mode, int16 ndds)
 static filerec_t *
 mk_rec(void)
 {
-    filerec_t *f = malloc(sizeof(filerec_t));
+    filerec_t *f = calloc(1, sizeof(filerec_t));
     H4V_ASSUME(f != NULL);
     H4V_ND(int, f_access);
     H4V_ND(int, f_refcount);
@@ -307,7 +307,6 @@ mk_rec(void)
     H4V_ND(int32, f_ddnull_idx);
     H4V_ASSUME(f_last_op >= 0 && f_last_op <= 3);
     H4V_ASSUME((f_access & DFACC_ALL) == f_access && (f_access & DFACC_READ));
-    memset(f, 0, sizeof(filerec_t));
     f->path             = g_path0;
     f->file             = HS0;
     f->maxref           = f_maxref;
